@@ -154,13 +154,16 @@ def run_history(impl, case, out):
             # (the driver fails before the Engine.IO handler runs): harmless, a later upgrade is still possible
             w.ws(peer.WSQ + '&sid=' + sid, fail_accept=True)
             w.run()
-        if case.get('pre') == 'failed':
+        if case.get('pre') in ('failed', 'hung_up'):
             # an earlier handshake on this session got as far as the probe and then failed; the client went back to
             # polling and drained what that attempt left behind
             s0 = peer.ws_upgrade(w, sid)
             w.ws_send(s0, '2probe')
             w.run()
-            w.ws_send(s0, '4x')
+            if case['pre'] == 'hung_up':
+                w.ws_close(s0)            # the peer closed the socket after its probe was answered, before UPGRADE
+            else:
+                w.ws_send(s0, '4x')
             w.run()
             for _ in range(2):
                 g0 = peer.poll(w, sid)
@@ -657,6 +660,8 @@ def run(ctx):
                     if len(sq) <= 2:
                         jobs.append(('hist', impl, {'events': sq, 'queued': k, 'poll': poll, 'pre': 'dropped'}))
                         jobs.append(('hist', impl, {'events': sq, 'queued': k, 'poll': poll, 'pre': 'failed'}))
+                        if len(sq) <= 1 or sq[0] == '2probe':
+                            jobs.append(('hist', impl, {'events': sq, 'queued': k, 'poll': poll, 'pre': 'hung_up'}))
         for k in (0, 1, 2, 3):
             for poll in (False, True):
                 jobs.append(('hist', impl, {'events': [], 'queued': k, 'poll': poll, 'only_dropped': True}))
@@ -704,7 +709,7 @@ def run(ctx):
         'samples': [{'events': ['2probe', '', '5'], 'queued': 2, 'poll': True}] + samples[:2],
         'evaluations': n + st.executions, 'distinct_nontrivial': n + st.executions,
         'rule': 'history search: every event sequence of length <= 2 over %d handshake events%s x queued messages {0,1,2} x pending poll '
-                '{no,yes} (sequences of length <= 2 also after an earlier upgrade attempt whose socket was gone before the WebSocket accept, and after one that failed right after its probe), each with its recovery suffix, x {Server, AsyncServer}; a handshake (upgrade / direct open) of a second session while a write to a first, upgraded session is parked inside its socket; transport configuration cells; schedule search: '
+                '{no,yes} (sequences of length <= 2 also after an earlier upgrade attempt whose socket was gone before the WebSocket accept, and after one that failed - a wrong frame, or the peer hanging up - right after its probe), each with its recovery suffix, x {Server, AsyncServer}; a handshake (upgrade / direct open) of a second session while a write to a first, upgraded session is parked inside its socket; transport configuration cells; schedule search: '
                 'every 1-event and probe+1-event handshake raced against one poll and one send, all interleavings of the three '
                 'scripts at quiescence and up to %d deviation(s) (early injection / preemption). states = histories + distinct '
                 'race outcomes; transitions = environment steps (8 per history, estimated) + decision points of the race executions.'
